@@ -35,6 +35,11 @@ type Config struct {
 	Hook     bool `json:"hook,omitempty"`     // error-redaction hook installed
 	NoPoison bool `json:"nopoison,omitempty"` // do not scribble over idle printers' spare capacity
 	Sink     bool `json:"sink,omitempty"`     // a sink task re-reads handed-over snapshots
+	// CarryPool: the run starts with the idle printers the previous run of
+	// this process left in the pool (as a long-lived process would), instead
+	// of an empty pool. A failure that depends on them replays with a
+	// prefix of earlier runs.
+	CarryPool bool `json:"carrypool,omitempty"`
 	// LateReg > 0: after the reference execution and right before the tasks
 	// start, the main goroutine registers a struct type that is new to the
 	// process as safe (RegisterSafeType has returned before any task exists).
